@@ -345,8 +345,14 @@ func suiteC20(s *Suite, rng *Rng, tier string) {
 						continue
 					}
 					p := pl[0].(*gabi.ProofD)
-					// verified by this goroutine against the shared public key
-					if !(gabi.ProofList{cloneProofD(p)}).Verify([]*gabikeys.PublicKey{pk}, ctx, nonce, false, nil) {
+					tr := transcriptD(round*1000+gi*10+k, fmt.Sprintf("g%d.%d", gi, k), b, p, cred, 0)
+					// verified by this goroutine against the shared public key: every other time the proof object itself, whose
+					// non-revocation part points at the signed accumulator of the shared witness, otherwise a copy that went over the wire
+					vp := p
+					if (gi+k)%2 == 1 {
+						vp = cloneProofD(p)
+					}
+					if !(gabi.ProofList{vp}).Verify([]*gabikeys.PublicKey{pk}, ctx, nonce, false, nil) {
 						if p.NonRevocationProof != nil && revCandidates(p) > 1 {
 							s.Count("skipped:ambiguous-revocation-index")
 						} else {
@@ -354,7 +360,7 @@ func suiteC20(s *Suite, rng *Rng, tier string) {
 						}
 					}
 					mu.Lock()
-					ts = append(ts, transcriptD(round*1000+gi*10+k, fmt.Sprintf("g%d.%d", gi, k), b, p, cred, 0))
+					ts = append(ts, tr)
 					mu.Unlock()
 				}
 			}(gi)
